@@ -242,19 +242,33 @@ Proof.
   rewrite E. destruct (g a x); [apply IH|reflexivity].
 Qed.
 
+Lemma psum_credited_ext (tbl tbl' : gmap N sector) (ps : list partition) :
+  (forall n, n ∈ allsecs ps -> tbl' !! n = tbl !! n) ->
+  psum (credited tbl') ps = psum (credited tbl) ps.
+Proof.
+  intros E. rewrite !psum_lsum.
+  assert (H : forall p, p ∈ ps -> credited tbl' p = credited tbl p).
+  { intros p Hp. unfold credited. apply spow_ext. intros n Hn. apply E.
+    apply elem_of_list_lookup in Hp as [i Hi]. apply elem_of_allsecs. exists i, p. split; [exact Hi|].
+    unfold active_sectors, live_sectors in Hn. set_solver. }
+  f_equal; apply lsum_ext; intros p Hp; rewrite (H p Hp); reflexivity.
+Qed.
+
 (* ---------- compact_partitions ---------- *)
 Lemma d_compact_partitions_inv qs tbl d psize to_remove d' dead :
   0 < q_unit qs -> tbl_keyed tbl -> 0 < psize -> DeadlineInv qs tbl d ->
   d_compact_partitions qs tbl d psize to_remove = Ok (d', dead) ->
-  DeadlineInv qs (delete_sectors tbl dead) d' /\ tbl_keyed (delete_sectors tbl dead).
+  DeadlineInv qs (delete_sectors tbl dead) d' /\ tbl_keyed (delete_sectors tbl dead) /\
+  psum (credited (delete_sectors tbl dead)) (parts d') = psum (credited tbl) (parts d).
 Proof.
   intros Hu Hk Hps HD. unfold d_compact_partitions.
   set (rm := (list_to_set to_remove : gset N)).
   destruct (Z.of_N _ <? ssize rm); [discriminate|].
   destruct (set_empty rm) eqn:Erm.
-  { intros [= <- <-]. split; [|apply delete_sectors_keyed, Hk].
-    eapply DeadlineInv_tbl_ext; [|apply delete_sectors_keyed, Hk|exact HD].
-    intros n _. apply delete_sectors_lookup. set_solver. }
+  { intros [= <- <-]. split; [|split; [apply delete_sectors_keyed, Hk|]].
+    - eapply DeadlineInv_tbl_ext; [|apply delete_sectors_keyed, Hk|exact HD].
+      intros n _. apply delete_sectors_lookup. set_solver.
+    - apply psum_credited_ext. intros n _. apply delete_sectors_lookup. set_solver. }
   destruct (forallb _ _); cbn [negb]; [|discriminate].
   destruct (set_empty (early_terms d)) eqn:Eet; cbn [negb]; [|discriminate].
   apply set_empty_true in Eet.
@@ -342,18 +356,27 @@ Proof.
   destruct (negb (afee =? 0)); [discriminate|]. destruct (negb (pp_eqb _ _)); [discriminate|].
   intros [= <- <-].
   destruct (d_add_sectors_off qs tbl d1 psize true false live_secs d2 apw afee 0 pp0 pp0 (sfee tbl Lr)
-              Hu Hk Hps HO1 HE1 Hnd Hft Hok Hfresh Eadd) as (HO2 & HE2 & _ & Hall2).
+              Hu Hk Hps HO1 HE1 Hnd Hft Hok Hfresh Eadd) as (HO2 & HE2 & Epw2 & Hall2 & Hcred2).
   cbn match in HO2. rewrite Hnums in HO2, Hall2.
   replace (sfee tbl Lr - sfee tbl Lr) with 0 in HO2 by lia.
   assert (HD2 : DeadlineInv qs tbl d2) by (apply dinv_off_zero; auto).
-  split; [|apply delete_sectors_keyed, Hk].
-  eapply DeadlineInv_tbl_ext; [|apply delete_sectors_keyed, Hk|exact HD2].
-  intros n Hn. apply delete_sectors_lookup. rewrite Hall2 in Hn. cbn [d1 parts] in Hn.
-  apply elem_of_union in Hn as [Hn|Hn].
-  - (* a sector of a kept partition *)
-    intros HnD. apply SubD in HnD. unfold allsecs in Hn.
-    apply elem_of_union_list in Hn as (X & HX & HnX). apply elem_of_list_fmap in HX as (p & -> & Hp).
-    apply elem_of_union_list in HnD as (Y & HY & HnY). apply elem_of_list_fmap in HY as (q & -> & Hq).
-    pose proof (kept_rem_disjoint rm (parts d) (fun i => i) p q HPW Hp Hq) as D. set_solver.
-  - pose proof (live_dead_disjoint qs tbl R PWR HPR) as D. fold Lr Dr in D. set_solver.
+  assert (Hext : forall n, n ∈ allsecs (parts d2) -> delete_sectors tbl Dr !! n = tbl !! n).
+  { intros n Hn. apply delete_sectors_lookup. rewrite Hall2 in Hn. cbn [d1 parts] in Hn.
+    apply elem_of_union in Hn as [Hn|Hn].
+    - (* a sector of a kept partition *)
+      intros HnD. apply SubD in HnD. unfold allsecs in Hn.
+      apply elem_of_union_list in Hn as (X & HX & HnX). apply elem_of_list_fmap in HX as (p & -> & Hp).
+      apply elem_of_union_list in HnD as (Y & HY & HnY). apply elem_of_list_fmap in HY as (q & -> & Hq).
+      pose proof (kept_rem_disjoint rm (parts d) (fun i => i) p q HPW Hp Hq) as D. set_solver.
+    - pose proof (live_dead_disjoint qs tbl R PWR HPR) as D. fold Lr Dr in D. set_solver. }
+  split; [|split; [apply delete_sectors_keyed, Hk|]].
+  - eapply DeadlineInv_tbl_ext; [exact Hext|apply delete_sectors_keyed, Hk|exact HD2].
+  - rewrite (psum_credited_ext tbl _ (parts d2) Hext), Hcred2, Epw2, Hnums. cbn [d1 parts].
+    rewrite (psum_kept_rem rm (credited tbl) (parts d) (fun i => i)). fold L K R. f_equal.
+    (* the removed partitions have neither faults nor unproven sectors: all their live power is credited *)
+    rewrite psum_lsum. unfold spow. rewrite (SumL (tget tbl s_raw)), (SumL (tget tbl s_qa)).
+    f_equal; apply lsum_ext; intros p Hp; rewrite Forall_forall in HFU; destruct (HFU p Hp) as [Ef Eu];
+      unfold credited, active_sectors; rewrite Ef, Eu;
+      (replace ((live_sectors p ∖ ∅) ∖ ∅) with (live_sectors p) by (apply seteq_L; clear; set_solver));
+      reflexivity.
 Qed.
